@@ -659,11 +659,13 @@ func ruleC15R4(w *World, r *Report) {
 	ct := w.fn(w.Mem, "(*Lexer).consumeToken")
 	if ct != nil {
 		used := map[string]bool{}
-		for _, b := range ct.Blocks {
-			for _, in := range b.Instrs {
-				if call, ok := in.(*ssa.Call); ok {
-					if c := call.Call.StaticCallee(); c != nil && c.Pkg != nil && c.Pkg.Pkg.Path() == modRoot+"/char" {
-						used[c.Name()] = true
+		for _, f := range w.withOwnHelpers(ct, "consumeNumber", "consumeQuotedContent") {
+			for _, b := range f.Blocks {
+				for _, in := range b.Instrs {
+					if call, ok := in.(*ssa.Call); ok {
+						if c := call.Call.StaticCallee(); c != nil && c.Pkg != nil && c.Pkg.Pkg.Path() == modRoot+"/char" {
+							used[c.Name()] = true
+						}
 					}
 				}
 			}
@@ -931,4 +933,40 @@ func (w *World) quoteEscapeTable(r *Report, rule string, fd *ast.FuncDecl) {
 	if undec != "" {
 		r.undecided(rule, "quoteSingleEscape (table)", w.pos(fd.Pos()), undec)
 	}
+}
+
+
+// withOwnHelpers: fn and the methods it calls on its own receiver (transitively, a few levels), except the named ones: a
+// scan that was split off into a helper (identPartEnd, skipIdentParts) still belongs to the function that asks for it.
+func (w *World) withOwnHelpers(fn *ssa.Function, except ...string) []*ssa.Function {
+	skip := map[string]bool{}
+	for _, e := range except {
+		skip[e] = true
+	}
+	out := []*ssa.Function{fn}
+	seen := map[*ssa.Function]bool{fn: true}
+	for i := 0; i < len(out) && i < 12; i++ {
+		f := out[i]
+		if len(f.Params) == 0 {
+			continue
+		}
+		for _, b := range f.Blocks {
+			for _, in := range b.Instrs {
+				c, ok := in.(*ssa.Call)
+				if !ok || c.Call.IsInvoke() || len(c.Call.Args) == 0 || c.Call.Args[0] != ssa.Value(f.Params[0]) {
+					continue
+				}
+				h := c.Call.StaticCallee()
+				if h == nil || h.Blocks == nil || seen[h] || skip[h.Name()] || h.Signature.Recv() == nil || fn.Signature.Recv() == nil || !types.Identical(h.Signature.Recv().Type(), fn.Signature.Recv().Type()) {
+					continue
+				}
+				if len(h.Blocks) > 12 {
+					continue // a reader of its own (consumeToken, a literal reader), not a helper
+				}
+				seen[h] = true
+				out = append(out, h)
+			}
+		}
+	}
+	return out
 }
